@@ -5,7 +5,7 @@ VARIANT=$1; OUT=$2
 REPO=${REPO:-/repo}
 SIM=/verif/sim
 mkdir -p "$OUT"
-WRAP="-Wl,--wrap=fopen64,--wrap=fclose,--wrap=read,--wrap=write,--wrap=writev,--wrap=lseek64,--wrap=ioctl,--wrap=_ZNSi4readEPcl,--wrap=_ZNSi8readsomeEPcl"
+WRAP="-Wl,--wrap=fopen64,--wrap=fclose,--wrap=read,--wrap=write,--wrap=writev,--wrap=lseek64,--wrap=ioctl,--wrap=rename,--wrap=remove,--wrap=_ZNSi4readEPcl,--wrap=_ZNSi8readsomeEPcl"
 case $VARIANT in
   plain) CXX=g++; FLAGS="-O1 -g -DSIM_ALLOC_SEAM";;
   vg)    CXX=g++; FLAGS="-O1 -g -DSIM_VALGRIND";;
